@@ -22,7 +22,8 @@ RULE = (
     "in context, marked-up documents) is extracted in fresh interpreters started with different PYTHONHASHSEED values "
     "(quick 4, thorough 8; ac tokenizer for all, hs/ref on a subset); all canonical serialisations (class, spans, "
     "groups, metadata, ordered candidate editions, guess, year, value hashes) of one (text, options) must be identical. "
-    "(b) histories: Hypothesis-drawn operation lists extract(i, options) over a small text pool in any order; every "
+    "(b) histories: Hypothesis-drawn operation lists extract(i, options) over a small text pool in any order, some "
+    "operations using a custom AhocorasickTokenizer built on the spot from a selection of the stock extractor objects; every "
     "result ever returned is re-serialised after every step and compared with its first serialisation, and equal "
     "(text, options) must give equal results at every position. (c) threads: k threads each extracting its own text "
     "with the shared default tokenizer under a harness-owned cooperative scheduler (sys.settrace line events in "
@@ -41,6 +42,7 @@ G = {}
 
 def setup(tier):
     tk.get(("ac",))
+    G["ties"] = tie_prone_texts()  # computed once in the parent; the forked workers inherit it
 
 
 # --------------------------------------------------------------------------- tie-prone cores
@@ -50,8 +52,10 @@ def tie_prone_texts():
     """Reporter strings for which two extractors match the same characters with non-mergeable tokens."""
     ac = tk.get(("ac",))["ac"]
     out = []
-    for R in inv.all_strings():
-        for core in (f"12 {R} 345", f"12 {R}, 345", f"12 {R} at 345"):
+    cores = [c for R in inv.all_strings() for c in (f"12 {R} 345", f"12 {R}, 345", f"12 {R} at 345")]
+    cores += [ex for ex, _ in inv.examples()]  # statutes, journals and special templates tie too
+    if True:
+        for core in cores:
             toks = call(lambda: list(ac.extract_tokens(" " + core + " ")))
             if isinstance(toks, Raised):
                 continue
@@ -102,7 +106,7 @@ def process_phase(tier):
 
         n_docs, n_markup, seeds = (1600, 200, [0, 1, 2, "r"]) if tier == "quick" else (40000, 4000, [0, 1, 2, 3, 4, 7, 11, "r"])
         seeds = [s if s != "r" else (seed * 7919 + 13) % 4294967295 for s in seeds]
-        ties = tie_prone_texts()
+        ties = G.get("ties") or tie_prone_texts()
         docs, mk = _draw_corpus(n_docs, n_markup, seed)
         corpus = []
         ctx = [("", ""), ("See ", "."), ("Foo v. Bar, ", " (1999)."), ("(", ")")]
@@ -271,6 +275,17 @@ def eval_process_replay(case):
 # --------------------------------------------------------------------------- (b) histories
 
 
+def _custom_tokenizer(salt):
+    """The documented custom-tokenizer usage: an AhocorasickTokenizer over a selection (here: a salt-determined half,
+    for odd salts in reverse order) of the stock extractor objects."""
+    from eyecite.tokenizers import EXTRACTORS, AhocorasickTokenizer
+
+    sel = [e for k, e in enumerate(EXTRACTORS) if zlib.crc32(f"{salt}:{k}".encode()) % 2 == 0 or k >= len(EXTRACTORS) - 5]
+    if salt % 2:
+        sel.reverse()
+    return AhocorasickTokenizer(extractors=sel)
+
+
 def _extract(text, opt):
     from eyecite import get_citations
 
@@ -278,6 +293,14 @@ def _extract(text, opt):
     kw = {}
     if opt & 1:
         kw["remove_ambiguous"] = True
+    if opt & 2:
+        # this call uses a tokenizer of its own, built now; the calls with the default tokenizer must not notice
+        custom = call(_custom_tokenizer, opt >> 2)
+        if isinstance(custom, Raised):
+            return custom
+        if isinstance(text, dict):
+            return call(get_citations, markup_text=text["markup"], clean_steps=list(text["steps"]), tokenizer=custom, **kw)
+        return call(get_citations, text, tokenizer=custom, **kw)
     if isinstance(text, dict):  # markup mode
         return call(get_citations, markup_text=text["markup"], clean_steps=list(text["steps"]), tokenizer=toks["ac"], **kw)
     return call(get_citations, text, tokenizer=toks["ac"], **kw)
@@ -298,7 +321,9 @@ def eval_history(case):
             continue
         s = ser(out)
         any_cite = any_cite or bool(out)
-        key = (i % len(texts), opt & 1)
+        key = (i % len(texts), opt & 1, opt >> 1)
+        if opt & 2:
+            res.label("custom-tokenizer-in-between")
         if key in first and first[key] != s:
             res.v("history-dependent", f"step {step}: extract(text #{key[0]}, ra={key[1]}) differs from its first result: {_difference(first[key], s)}")
         first.setdefault(key, s)
@@ -538,15 +563,27 @@ def _court_family(draw):
     return {"kind": "history", "texts": texts, "ops": ops}
 
 
+@st.composite
+def _tie_history(draw):
+    """Texts on which two stock patterns tie (same characters, different groups), extracted with the default tokenizer
+    before and after other tokenizers were built from selections of the same extractor objects."""
+    texts = draw(st.lists(st.sampled_from(G.get("ties") or _TIE_TEXTS), min_size=1, max_size=3))
+    ops = [[0, 0]]
+    for _ in range(draw(st.integers(1, 3))):
+        ops.append([draw(st.integers(0, 2)), draw(st.sampled_from([2, 6, 10, 14]))])
+        ops.append([draw(st.integers(0, 2)), 0])
+    return {"kind": "history", "texts": texts, "ops": ops}
+
+
 def _history():
-    return st.one_of(_family(), _plain_history(), _plain_history(), _court_family())
+    return st.one_of(_family(), _plain_history(), _plain_history(), _court_family(), _tie_history())
 
 
 def _plain_history():
     return st.builds(
         lambda texts, ops: {"kind": "history", "texts": texts, "ops": ops},
         st.lists(_text(), min_size=1, max_size=4),
-        st.lists(st.tuples(st.integers(0, 3), st.integers(0, 1)).map(list), min_size=2, max_size=10),
+        st.lists(st.tuples(st.integers(0, 3), st.sampled_from([0, 0, 1, 1, 0, 1, 2, 6, 10, 14])).map(list), min_size=2, max_size=10),
     )
 
 
